@@ -225,7 +225,7 @@ class Stage:
     """one generator -> harness -> validator pass"""
     def __init__(self, name, gen, trace, mc=(), env=None, gen_workers=1, trace_env=None,
                  required=(), simulate=None, gen_timeout=1800, trace_timeout=3600, shards=1,
-                 executor=None, harness_bin=None, stop_on_violation=False, harness_env=None, adopt=()):
+                 executor=None, harness_bin=None, stop_on_violation=False, harness_env=None, adopt=(), max_cases=None):
         self.name = name
         self.gen = gen              # (module, cfg)
         self.trace = trace          # (module, cfg)
@@ -245,6 +245,7 @@ class Stage:
         # clauses of the shared validator that are named after another property but decide this one too
         # (e.g. the Wilson root enclosure C02.root_lo is how C06 decides the normal quantile)
         self.adopt = set(adopt)
+        self.max_cases = max_cases          # upper bound on the cases taken from the generator (simulation stages)
 
 
 class Outcome:
@@ -354,6 +355,8 @@ def run_stage(st, prop, tier, seed, out, replay=None):
             with open(cases_path, "w") as f:
                 for k, v in r.lines:
                     if k == "CASE":
+                        if st.max_cases and n >= st.max_cases:
+                            break               # simulation mode emits an unpredictable number of behaviours: a fixed prefix is used
                         n += 1
                         v["cid"] = n
                         f.write(json.dumps(v, separators=(",", ":")) + "\n")
